@@ -597,6 +597,13 @@ class Unit:
         sig = _widen_vis(sig)
         if e.ret:
             sig, _ = name_return(sig, e.ret)
+        # a loop that no loop contract covers (one introduced by an edit): obligations of this function that fail are
+        # then "needs an invariant", not a verdict (driver: unspecified_loops)
+        e.unspecified_loops = 0
+        if not e.trusted and not e.all_loops:
+            n_l = len(find_loops(body))
+            if n_l > len(e.loops):
+                e.unspecified_loops = n_l - len(e.loops)
         # loops (ordinals refer to the body after desugaring)
         if e.loops or e.all_loops:
             loops = find_loops(body)
